@@ -7,6 +7,9 @@ package sim
 import (
 	"encoding/json"
 	"fmt"
+	"os"
+	"path/filepath"
+	"slices"
 	"strings"
 	"testing"
 	"time"
@@ -22,6 +25,7 @@ type C05CLIPlan struct {
 	FF    string    `json:"ff"`    // "", ff, no-ff, ff-only
 	Depth int       `json:"depth"` // extra commits on the moving side (1..3)
 	Fault *Fault    `json:"fault,omitempty"` // an object-store read fails during the merge: refused, or right
+	Via   string    `json:"via,omitempty"`   // "csv": a real merge goes `wrgl merge --no-commit` (result written to MERGE_<sums>.csv, rows from the sorter's row output) and then `wrgl merge --commit-csv <that file>`
 }
 
 func init() {
@@ -36,6 +40,9 @@ func init() {
 			p.E1, p.E2 = genDisjointEdits(r.Sub("edits"), cols, pk, p.Base.N)
 			if r.Chance(0.3) || (p.Shape == "diverged" && r.Chance(0.5)) {
 				p.Fault = &Fault{Op: Pick(r, []string{"get", "get", "read", "any"}), Prefix: Pick(r, []string{"blk/", "blk/", "blk/", "blkidx/", "tbl", "com/", ""}), Nth: r.Range(1, 14), Sticky: r.Chance(0.15)}
+			}
+			if r.Sub("via").Chance(0.6) && p.Fault == nil && p.FF != "ff-only" && (p.Shape == "diverged" || p.Shape == "sidemerge") {
+				p.Via = "csv"
 			}
 			return p
 		},
@@ -175,6 +182,67 @@ func execC05CLI(t *testing.T, raw json.RawMessage, res *Result) {
 	if p.FF != "" {
 		args = append(args, "--"+p.FF)
 	}
+	if p.Via != "" {
+		if p.Via != "csv" || p.Fault != nil || p.FF == "ff-only" || (p.Shape != "diverged" && p.Shape != "sidemerge") {
+			res.Invalid("via")
+			return
+		}
+		// the two-step route: the merge result as a CSV file, then a merge commit made from that file
+		n.Clock += time.Hour
+		nc := []string{"merge", "main", "alt", "-n", "2", "--no-commit"}
+		r0 := n.Run(t, nc...)
+		if bubbleProblems(res, r0.Out, "wrgl "+strings.Join(nc, " ")) {
+			return
+		}
+		if r0.Err != nil {
+			res.Violate("merge-error", "`wrgl %s` (%s) failed: %v\n%s", strings.Join(nc, " "), p.Shape, r0.Err, r0.Stdout)
+			return
+		}
+		if refsNow, _ := n.Refs(); !sameRefs(refsNow, refsBefore) {
+			res.Violate("no-commit-moved-ref", "`wrgl %s` changed the refs", strings.Join(nc, " "))
+			return
+		}
+		files, _ := filepath.Glob(filepath.Join(n.Root, "MERGE_*.csv"))
+		if len(files) != 1 {
+			res.Violate("no-commit-no-file", "`wrgl %s` left %d MERGE_*.csv files in the working directory\n%s", strings.Join(nc, " "), len(files), r0.Stdout)
+			return
+		}
+		text, err := os.ReadFile(files[0])
+		if err != nil {
+			res.Invalid("%v", err)
+			return
+		}
+		fcols, frows, err := ParseCSV(text, ',')
+		if err != nil || len(fcols) != len(cols) {
+			res.Violate("no-commit-file-wrong", "%s: columns %q (err %v), want %q", filepath.Base(files[0]), fcols, err, cols)
+			return
+		}
+		pkI0, _ := pkIndices(cols, pk)
+		exp0 := IngestModel(cols, NormaliseCSV(cols, want), pkI0)
+		var byName [][]string
+		for _, r := range frows {
+			out := make([]string, len(cols))
+			for j, c := range cols {
+				x := slices.Index(fcols, c)
+				if x < 0 {
+					res.Violate("no-commit-file-wrong", "%s: columns %q, want %q", filepath.Base(files[0]), fcols, cols)
+					return
+				}
+				out[j] = r[x]
+			}
+			byName = append(byName, out)
+		}
+		tpk0 := make([]uint32, len(pkI0))
+		for i, u := range pkI0 {
+			tpk0[i] = uint32(u)
+		}
+		if c, d := exp0.Compare(cols, tpk0, byName); c != "" {
+			res.Violate("merge-file-"+c, "`wrgl %s` with main %s alt: the rows of %s are not the merge result: %s", strings.Join(nc, " "), p.Shape, filepath.Base(files[0]), d)
+			return
+		}
+		res.probe("merge_no_commit_then_commit_csv", 1)
+		args = []string{"merge", "main", "alt", "-n", "2", "--commit-csv", files[0]}
+	}
 	n.Clock += time.Hour
 	if p.Fault != nil {
 		p.Fault.seen, p.Fault.Fired = 0, 0
@@ -301,4 +369,16 @@ func applyCellEditsByKey(cols, pk []string, base, cur [][]string, es []Edit) [][
 		}
 	}
 	return out
+}
+
+func sameRefs(a, b map[string][]byte) bool {
+	if len(a) != len(b) {
+		return false
+	}
+	for k, v := range a {
+		if w, ok := b[k]; !ok || string(v) != string(w) {
+			return false
+		}
+	}
+	return true
 }
